@@ -631,12 +631,13 @@ func (r *Resolver) ResolveGraphQLDeferResponse(ctx *Context, response *GraphQLDe
 				// zero writes hasNext:false.
 				outstanding := int64(len(liveTop))
 				dc := &deferContext{
-					response:   response,
-					info:       response.Response.Info,
-					db:         db,
-					resolvable: resolvable,
-					writer:     writer,
-					arena:      resolveArena.Arena,
+					response:      response,
+					info:          response.Response.Info,
+					db:            db,
+					resolvable:    resolvable,
+					writer:        writer,
+					arena:         resolveArena.Arena,
+					authorization: authorization,
 				}
 				if err := r.resolveDeferTree(dc, ctx, liveTree, &outstanding); err != nil {
 					return nil, err
@@ -660,6 +661,10 @@ type deferContext struct {
 	// arena backs every defer group's loader. It is shared across groups; every
 	// allocation from it is serialised by db's lock (see resolveDeferSingle).
 	arena arena.Arena
+	// authorization holds the request's field-authorization decisions. Defer-group loaders read
+	// the up-front (pre-fetch) decisions from it in their prepare phase, which holds db's lock
+	// like the render-time reads and writes of the resolvable.
+	authorization *FieldAuthorization
 }
 
 // resolveDeferSingle fetches and renders a single deferred fragment, announcing
@@ -680,7 +685,7 @@ func (r *Resolver) resolveDeferSingle(dc *deferContext, ctx *Context, group *Def
 	// the arena only in its prepare and merge phases, both of which hold
 	// dc.db.Lock(), and the off-lock network phase allocates nothing from it. The
 	// lock therefore serialises every arena allocation across all groups.
-	groupLoader := NewLoader(r.options, r.allowedErrorExtensionFields, r.allowedErrorFields, r.subgraphRequestSingleFlight, dc.arena, dc.db, nil)
+	groupLoader := NewLoader(r.options, r.allowedErrorExtensionFields, r.allowedErrorFields, r.subgraphRequestSingleFlight, dc.arena, dc.db, dc.authorization)
 	groupLoader.Init(ctx, dc.info) // fresh taintedObjs; errors=nil
 
 	if fetchErr := groupLoader.ResolveFetchNode(group.Fetches); fetchErr != nil {
